@@ -7,6 +7,8 @@ import (
 	"strings"
 	"time"
 
+	"google.golang.org/grpc/codes"
+
 	"github.com/omec-project/upf-epc/zzverif/vsim"
 	"github.com/wmnsk/go-pfcp/ie"
 	"github.com/wmnsk/go-pfcp/message"
@@ -311,6 +313,21 @@ func scenarioC05UP4(r *Run) {
 	for _, n := range []string{mApp, mSess, cPre, cPost} {
 		sw.Resize(n, small)
 	}
+	// fault sequences: in one run in three, Write RPCs of establishments and
+	// modifications fail now and then (never during the ending itself, so that
+	// the session does end)
+	faulty := r.Ch.Choose(3, "p4-write-failures") == 1
+	sw.FailKind = []string{"transport", "update", "lost", "bare-unknown"}[r.Ch.Choose(4, "failkind")]
+	sw.FailCode = []codes.Code{codes.Internal, codes.Unavailable, codes.NotFound, codes.ResourceExhausted}[r.Ch.Choose(4, "failcode")]
+	faults := func(on bool) {
+		sw.Faults.FailDen = 0
+		if faulty && on {
+			sw.Faults.FailDen = 10
+		}
+	}
+	fired := func() int {
+		return sw.Fired["p4-write-fail-transport"] + sw.Fired["p4-write-fail-update"] + sw.Fired["p4-write-response-lost"] + sw.Fired["p4-write-fail-bare-unknown"]
+	}
 	p := r.AddPeer()
 	r.StartAgent()
 	if !r.WaitUP4Ready() {
@@ -364,7 +381,9 @@ func scenarioC05UP4(r *Run) {
 			// refused after PDRs, QERs and FARs were parsed (and ids possibly taken)
 			bad := g.Session(p, SessShape{UEAlloc: true, TEIDChoose: true, NQER: r.Ch.Choose(3, "bad-nq")})
 			bad.FARs = append(bad.FARs, &FARSpec{ID: 7, Action: 0})
+			faults(true)
 			res := p.Establish(bad)
+			faults(false)
 			r.Op("cycle %d: establishment with an invalid FAR after valid rules -> accepted=%v cause=%d", c, res.Accepted, res.Cause)
 			r.Skel("rejected-est")
 			if res.Accepted {
@@ -379,7 +398,49 @@ func scenarioC05UP4(r *Run) {
 		}
 		s := g.Session(p, sh)
 		ending := []string{"deletion", "release", "silence", "hbfail", "report-not-found"}[r.Ch.Choose(5, "ending")]
+		f0 := fired()
+		faults(true)
 		res := p.Establish(s)
+		faults(false)
+		estHit := fired() > f0
+		ctxFault := ""
+		if estHit {
+			ctxFault = ":write-failed"
+			r.Fault("p4-write-failed-in-establishment")
+		}
+		if !res.Accepted && estHit && res.Rx != nil && r.AgentAlive() {
+			// refused because a write failed: whatever the attempt took must be back
+			r.Op("cycle %d: establishment refused (cause %d) after an injected write failure (%s)", c, res.Cause, sw.FailKind)
+			r.Skel("est-write-failed")
+			ctx := fmt.Sprintf("cycle %d: establishment of cp=%d refused after a failed write (%s)", c, s.CPSEID, sw.FailKind)
+			// One root cause (the plug-in does not undo what a failed establishment
+			// did), seen through whichever object comes first: one signature.
+			nv := len(r.Violations)
+			r.noTaintFallback = true
+			r.CheckUP4Image("C05", ctx, "refused-est"+ctxFault, o)
+			r.noTaintFallback = false
+			if len(r.Violations) == nv {
+				occ := probeOcc()
+				var keys []string
+				for k := range occ0 {
+					keys = append(keys, k)
+				}
+				sort.Strings(keys)
+				for _, k := range keys {
+					if occ[k] != occ0[k] {
+						r.Violate("C05", "up4-"+k+":not-returned:refused-est"+ctxFault, "%s: UP4 %s has size %d, %d before the first session (all: %v)", ctx, k, occ[k], occ0[k], occ)
+						break
+					}
+				}
+			}
+			if len(r.Violations) > nv {
+				v := &r.Violations[len(r.Violations)-1]
+				v.Msg = "[" + v.Sig + "] " + v.Msg
+				v.Sig = "up4-leftovers-of-establishment-refused-after-failed-write"
+				return
+			}
+			continue
+		}
 		if !res.Accepted {
 			if res.Rx != nil && r.AgentAlive() {
 				st, _ := r.probeAgent(nil)
@@ -404,6 +465,7 @@ func scenarioC05UP4(r *Run) {
 		// history before the end: the UE goes idle and active again (the way
 		// pfcpsim sends it: buffering FAR keeps the gNB address, TEID 0), hand-overs
 		nm := r.Ch.Choose(4, "nmods")
+		modHit := false
 		for k := 0; k < nm; k++ {
 			old := s.FAR(2)
 			var f FARSpec
@@ -448,7 +510,14 @@ func scenarioC05UP4(r *Run) {
 			if m.Trigger != "" {
 				r.Taint(s.UPSEID, m.Trigger)
 			}
+			f1 := fired()
+			faults(true)
 			mr := p.Modify(s, m)
+			faults(false)
+			if fired() > f1 {
+				r.Fault("p4-write-failed-in-modification")
+				modHit = true
+			}
 			r.Op("  modify %s -> accepted=%v", m.Describe(), mr.Accepted)
 			r.Skel("mod:" + m.Tag)
 		}
@@ -526,8 +595,28 @@ func scenarioC05UP4(r *Run) {
 		}
 		// ---- nothing of the session is left at the switch, every id is back
 		ctx := fmt.Sprintf("cycle %d: session up=%d ended by %s", c, up, ending)
-		r.CheckUP4Image("C05", ctx, "end:"+ending, o)
+		endCause := "end:" + ending
+		if estHit || modHit {
+			endCause += ":after-failed-write"
+			ctx += fmt.Sprintf(" (a write of its establishment / a modification had failed: %s)", sw.FailKind)
+		}
+		// what a request refused after a failed write left behind (the plug-in
+		// undoes nothing) surfaces here through whichever object comes first: one
+		// signature for that root cause, unless a listed trigger explains it
+		collapse := func() {
+			if !(estHit || modHit) || len(r.Violations) == 0 {
+				return
+			}
+			v := &r.Violations[len(r.Violations)-1]
+			if strings.Contains(v.Sig, ":after:") {
+				return
+			}
+			v.Msg = "[" + v.Sig + "] " + v.Msg
+			v.Sig = "up4-leftovers-of-session-with-a-request-refused-after-failed-write"
+		}
+		r.CheckUP4Image("C05", ctx, endCause, o)
 		if len(r.Violations) > 0 {
+			collapse()
 			return
 		}
 		occ := probeOcc()
@@ -538,7 +627,8 @@ func scenarioC05UP4(r *Run) {
 		sort.Strings(keys)
 		for _, k := range keys {
 			if occ[k] != occ0[k] {
-				r.Violate("C05", imgSig("up4-"+k, "not-returned", r.causeFor(up, "end:"+ending)), "%s: UP4 %s has size %d, %d before the first session (all: %v)", ctx, k, occ[k], occ0[k], occ)
+				r.Violate("C05", imgSig("up4-"+k, "not-returned", r.causeFor(up, endCause)), "%s: UP4 %s has size %d, %d before the first session (all: %v)", ctx, k, occ[k], occ0[k], occ)
+				collapse()
 				return
 			}
 		}
